@@ -402,6 +402,17 @@ func (p *c16SSHPeer) Hangup() {
 	}
 }
 
+// EndSession: the server ends the session channel (the shell exited) and keeps the connection.
+func (p *c16SSHPeer) EndSession() {
+	p.mu2.Lock()
+	ch := p.ch
+	p.mu2.Unlock()
+	if ch != nil {
+		_, _ = ch.SendRequest("exit-status", false, []byte{0, 0, 0, 0})
+		_ = ch.Close()
+	}
+}
+
 func (p *c16SSHPeer) Freeze() {
 	p.mu2.Lock()
 	g := p.gate
